@@ -260,5 +260,14 @@ Definition optable : list (N * (N * Z * bool)) := [
 ].
 
 (* numbers of the events that move the code position of the thread that executes them or end it:
-   end=39, goto=43, throw=18, delaythrow=17, delete=9, remove=11, immediateremove=10, killclass=51, removeclass=52 *)
-Definition control_events : list N := [39; 43; 18; 17; 9; 11; 10; 51; 52].
+   end=48, goto=52, throw=27, delaythrow=26, delete=18, remove=20, immediateremove=19, killclass=60, removeclass=61 *)
+Definition ev_end : N := 48.
+Definition ev_goto : N := 52.
+Definition ev_throw : N := 27.
+Definition ev_delaythrow : N := 26.
+Definition ev_delete : N := 18.
+Definition ev_remove : N := 20.
+Definition ev_immediateremove : N := 19.
+Definition ev_killclass : N := 60.
+Definition ev_removeclass : N := 61.
+Definition control_events : list N := [ev_end; ev_goto; ev_throw; ev_delaythrow; ev_delete; ev_remove; ev_immediateremove; ev_killclass; ev_removeclass].
